@@ -10,7 +10,7 @@ H(r) == hist' = Append(hist, r)
 GNext ==
   \/ \E c \in Clients :
        \/ CAccept(c) /\ "Accept" \in Acts /\ H([a |-> "Accept", c |-> c])
-       \/ \E s \in BOOLEAN : MConnect(c, s) /\ "Connect" \in Acts /\ H([a |-> "Connect", c |-> c, s |-> s])
+       \/ \E s, f \in BOOLEAN : MConnect(c, s, f) /\ "Connect" \in Acts /\ H([a |-> "Connect", c |-> c, s |-> s, nsi |-> f])
        \/ \E s \in BOOLEAN : MServiceReq(c, s) /\ "ServiceReq" \in Acts /\ H([a |-> "ServiceReq", c |-> c, s |-> s])
        \/ MConnectRej(c) /\ "ConnectRej" \in Acts /\ H([a |-> "ConnectRej", c |-> c])
        \/ MPidReq(c) /\ "PidReq" \in Acts /\ H([a |-> "PidReq", c |-> c])
